@@ -34,6 +34,15 @@ pub fn for_each_case(path: &str, mut f: impl FnMut(&J)) -> Result<usize, String>
     Ok(n)
 }
 
+pub fn parse_case_line(line: &str) -> Result<J, String> {
+    if line.starts_with("\"CASE ") {
+        let s: String = serde_json::from_str(line).map_err(|e| format!("bad CASE literal: {e}"))?;
+        serde_json::from_str(&s[5..]).map_err(|e| format!("bad case json: {e}"))
+    } else {
+        serde_json::from_str(line).map_err(|e| format!("bad case json: {e}"))
+    }
+}
+
 fn main() {
     std::panic::set_hook(Box::new(|_| {})); // panics in the code under test are data
     let args: Vec<String> = std::env::args().collect();
@@ -77,37 +86,70 @@ fn run(args: &[String]) -> Result<i32, String> {
                 println!("replayed {} cases ({} evaluations), {} mismatches, {} tool errors", rep.cases, rep.evaluations, rep.mismatch_count, rep.tool_errors.len());
                 return Ok(if !rep.tool_errors.is_empty() { 2 } else if rep.mismatch_count > 0 { 1 } else { 0 });
             }
-            // read all cases, then replay them on all cores (cases are independent)
-            let mut cases: Vec<J> = Vec::new();
-            let n = for_each_case(input, |case| cases.push(case.clone()))?;
+            // replay on all cores, in batches of lines so that memory stays bounded (cases are independent)
             let threads = std::env::var("CONFORM_THREADS").ok().and_then(|s| s.parse().ok()).unwrap_or(14usize).max(1);
-            let chunk = (cases.len() + threads - 1) / threads.max(1);
+            let file = std::fs::File::open(input).map_err(|e| format!("{input}: {e}"))?;
+            let mut lines = BufReader::new(file).lines();
             let mut rep = report::Report::default();
-            let engine_s = engine.clone();
-            let parts: Vec<report::Report> = std::thread::scope(|sc| {
-                let hs: Vec<_> = cases
-                    .chunks(chunk.max(1))
-                    .map(|part| {
-                        let engine = engine_s.clone();
-                        sc.spawn(move || {
-                            let mut rep = report::Report::default();
-                            for case in part {
-                                match engine.as_str() {
-                                    "ops" => ops::replay_case(case, &mut rep),
-                                    "prog" => scenario::replay_prog(case, &mut rep),
-                                    "scenario" => scenario::replay_scenario(case, &mut rep),
-                                    "parse" => parse::replay_parse(case, &mut rep),
-                                    _ => rep.tool_error(format!("unknown engine {engine}")),
+            let mut n = 0usize;
+            loop {
+                let mut batch: Vec<String> = Vec::new();
+                for line in lines.by_ref() {
+                    let line = line.map_err(|e| e.to_string())?;
+                    if line.starts_with("\"CASE ") || line.starts_with('{') {
+                        batch.push(line);
+                        if batch.len() >= 40_000 {
+                            break;
+                        }
+                    }
+                }
+                if batch.is_empty() {
+                    break;
+                }
+                n += batch.len();
+                let chunk = (batch.len() + threads - 1) / threads;
+                let engine_s = engine.clone();
+                let parts: Vec<report::Report> = std::thread::scope(|sc| {
+                    let hs: Vec<_> = batch
+                        .chunks(chunk.max(1))
+                        .map(|part| {
+                            let engine = engine_s.clone();
+                            sc.spawn(move || {
+                                let mut rep = report::Report::default();
+                                for line in part {
+                                    let case = match parse_case_line(line) {
+                                        Ok(c) => c,
+                                        Err(e) => {
+                                            rep.tool_error(e);
+                                            continue;
+                                        }
+                                    };
+                                    let case = &case;
+                                    match engine.as_str() {
+                                        "ops" => ops::replay_case(case, &mut rep),
+                                        "prog" => scenario::replay_prog(case, &mut rep),
+                                        "scenario" => scenario::replay_scenario(case, &mut rep),
+                                        "parse" => parse::replay_parse(case, &mut rep),
+                                        _ => rep.tool_error(format!("unknown engine {engine}")),
+                                    }
                                 }
-                            }
-                            rep
+                                rep
+                            })
                         })
-                    })
-                    .collect();
-                hs.into_iter().map(|h| h.join().unwrap_or_else(|_| { let mut r = report::Report::default(); r.tool_error("replay thread panicked".into()); r })).collect()
-            });
-            for p in parts {
-                rep.merge(p);
+                        .collect();
+                    hs.into_iter()
+                        .map(|h| {
+                            h.join().unwrap_or_else(|_| {
+                                let mut r = report::Report::default();
+                                r.tool_error("replay thread panicked".into());
+                                r
+                            })
+                        })
+                        .collect()
+                });
+                for p in parts {
+                    rep.merge(p);
+                }
             }
             if n == 0 {
                 return Err(format!("no cases in {input}"));
